@@ -23,6 +23,8 @@ var mapAlphabet = []uint64{
 	0x6a09e667f3bcc90f, // ..111
 }
 
+var alphabetSink map[string]int
+
 // measureAlphabet reports, per map size 2..16, how many distinct iteration orders the alphabet gives
 // for a plain map[string]int filled in one fixed insertion order, and how many (insertion order
 // reversed) when the insertion order is a second dimension. It is evidence that the order alphabet is
@@ -38,6 +40,7 @@ func measureAlphabet() (perSize map[string]int, perSizeWithReverse map[string]in
 			runtime.VerifSetMapRand(c)
 			for _, rev := range []bool{false, true} {
 				m := map[string]int{}
+				alphabetSink = m // heap map: its seed comes from the seam (a stack map's does not, see C17.json)
 				for i := 0; i < size; i++ {
 					j := i
 					if rev {
